@@ -122,12 +122,16 @@ func (server *Server) Start() error {
 
 // Stop stops the server.
 func (server *Server) Stop() error {
-	if err := server.ConnManager.Stop(); err != nil {
-		return err
-	}
+	// An error while closing a client connection (e.g. a TLS connection whose
+	// peer is already gone cannot send its close notification) must not keep
+	// the listeners open: it is reported after everything has been closed.
+	connErr := server.ConnManager.Stop()
 
 	if err := server.close(); err != nil {
-		return err
+		return errors.Join(connErr, err)
+	}
+	if connErr != nil {
+		return connErr
 	}
 
 	if server.IsPortEnabled() {
